@@ -31,7 +31,9 @@ Class(line, bad) ==
                \/ ((c.shape = "rootchild_whole" \/ c.pos # "comp") /\ bad \subseteq {"validates_iff_original", "resolves_to_same_content", "reloads_without_external_refs"}))
         THEN "wholefile_refpath_of_referring_document"
    \*         (F-C16-3, next: wholefile_plain brought whole-file root components of the kinds without child sites: links, examples, security schemes)
-   ELSE IF c.shape \in {"wholefile", "wholefile_plain", "wholedef", "wholedef_ref", "wholedef_reffrag"} /\ c.u.use.ref.frag = <<>> /\ c.pos = "comp"
+   \*         (pctname_whole: the same whole-file root component, its file merely has a percent sign in its name -- a probe gives the same
+   \*          self-reference {"U": {"$ref": "#/components/examples/U"}} for w.json, "pet%20v2.json" and "pet v2.json")
+   ELSE IF c.shape \in {"wholefile", "wholefile_plain", "pctname_whole", "wholedef", "wholedef_ref", "wholedef_reffrag"} /\ c.u.use.ref.frag = <<>> /\ c.pos = "comp"
            /\ c.kind \in {"headers", "responses", "links", "examples", "securitySchemes"}
            /\ bad \subseteq {"validates_iff_original", "resolves_to_same_content", "reloads_without_external_refs"}
         THEN "wholefile_component_self_reference"
